@@ -93,7 +93,7 @@ class World:
         self.muts = 0
         self.crash_at = None
         self.fault_at = None  # the k-th mutation fails with OSError(ENOSPC) (process keeps running)
-        self.fault_kinds = ("truncate", "append", "obj-add", "ref-set")
+        self.fault_kinds = ("truncate", "append", "obj-add", "ref-set", "lock-write")
         self.faulted = None
         self.dead = False
         self.sched = Sched()
